@@ -478,7 +478,7 @@ impl Property for C12 {
         "C12"
     }
     fn rule(&self) -> &'static str {
-        "sweep = every lower in [-6,6] x every width 0..600 (quick) / 0..4096 (thorough) plus widths 2^k-1, 2^k, 2^k+1 up to 4097, each checked on ALL bit patterns; random = ranges with |l|,|u|<=2^20, fractional bounds, other variables with larger ids, a recorded value on the variable, recorded parameter values / removed constraints on the instance, and every error class (unknown id, binary/continuous kind, no bound, lower=-inf, upper=+inf, both, NaN, no integer inside; the infinite/NaN classes run in a child process under a 20 s / 4 GB limit because the statement is 'an error, not a hang'); \
+        "sweep = every lower in [-6,6] x every width 0..600 (quick) / 0..4096 (thorough) plus widths 2^k-1, 2^k, 2^k+1 up to 4097, each checked on ALL bit patterns; random = ranges with |l|,|u|<=2^20, fractional bounds, doubles adjacent to integers, empty ranges hugging an integer, points at infinity, other variables with larger ids, a recorded value on the variable, recorded parameter values / removed constraints on the instance, encode -> substitute -> tighten -> encode again, and every error class (unknown id, binary/continuous kind, no bound, lower=-inf, upper=+inf, both, NaN, no integer inside; the infinite/NaN classes run in a child process under a 20 s / 4 GB limit because the statement is 'an error, not a hang'); \
          oracle = value set over all bit patterns (width<=4096) or complete-sequence criterion; non-trivial = width>=2 and not 2^k-1, or an error class; distinct = (lower, upper, class, layout)"
     }
     fn required_labels(&self) -> Vec<String> {
